@@ -27,11 +27,11 @@ def one : Int := 65536
 /-- Each field names one place where `decodeCharString` is more lenient than, or different from,
 the text of TN5177.  `true` = behave like the Go code. -/
 structure Quirks where
-  /-- rmoveto/hmoveto/vmoveto with fewer operands than required: Go silently does nothing
-      (TN5177: operand-count error) -/
+  /-- REPAIRED C05-lenient (repository commit df570b3; no longer part of `goQuirks`): rmoveto/hmoveto/
+      vmoveto with fewer operands than required: Go silently did nothing (TN5177: stack underflow) -/
   shortMovetoIgnored : Bool
-  /-- a path operator (rlineto … flex1) with fewer operands than its smallest legal form: Go
-      silently draws nothing (or, for rcurveline, only the line) -/
+  /-- REPAIRED C05-lenient (df570b3; no longer part of `goQuirks`): a path operator (rlineto … flex1)
+      with fewer operands than its smallest legal form: Go silently drew nothing -/
   shortPathOpIgnored : Bool
   /-- operands beyond a legal operand count (odd rlineto, rrcurveto with n mod 6 ≠ 0, flex with
       more than 13, stems with a stray operand once the width is set, endchar with 2–3, …) are
@@ -57,7 +57,7 @@ structure Quirks where
 deriving Repr, DecidableEq
 
 /-- the configuration that models `decodeCharString` -/
-def goQuirks : Quirks := ⟨true, true, true, true, true, false, true, true, true, true⟩
+def goQuirks : Quirks := ⟨false, false, true, true, true, false, true, true, true, true⟩
 /-- the configuration that is the specification -/
 def strict : Quirks := ⟨false, false, false, false, false, false, false, false, false, false⟩
 
